@@ -40,6 +40,14 @@ def H(name, build, what, tier="quick", covers=(), **kw):
 PROPS = {}
 ATTACH = {}
 
+def _c10_cap(name):
+    import re as _re
+    m = _re.search(r'_m(\d+)', name)
+    if m and ("weak" in name or "strong" in name or "bfsparts_d" in name) and bin(int(m.group(1))).count("1") > 4:
+        return 8
+    return 4
+
+
 import gen as _gen
 
 _AC_CREATION = [("src/graph/mod.rs", "model.rs"), ("src/graph/creation.rs", "creation_ac.rs")]
@@ -109,9 +117,8 @@ PROPS["C08"] = {
 ATTACH["C05"] = {"ac": [("src/graph/mod.rs", "model.rs"), ("src/algorithms/centrality/betweenness.rs", "betweenness_ac.rs")]}
 PROPS["C05"] = {
     "harnesses": [
-        H("c05_rescale_all", "ac", "rescale on vectors of every length n <= 6 with arbitrary finite values, both flags symbolic", covers=["normalized", "halved"], bounds="n <= 6", timeout=900),
-        H("c05_get_scale_all", "ac", "get_scale for every n <= 10^6 and both flags", covers=["no scale"], bounds="n <= 1e6", timeout=600),
-    ] + [H(name, "ac", what, tier=tier, covers=covers, bounds="3 nodes; topology enumerated; unwind 8", timeout=1500) for (name, call, tier, covers, what) in _gen.c05_cases()],
+        H("c05_get_scale_all", "ac", "get_scale for every n <= 1000 and both flags", covers=["no scale"], bounds="n <= 1000", timeout=600),
+    ] + [H(name, "ac", what, tier=tier, covers=covers, bounds="3 nodes; topology enumerated; unwind 8", timeout=1500, cap=_c10_cap(name.replace("c05_pub_d", "weak"))) for (name, call, tier, covers, what) in _gen.c05_cases()],
     "outside": "the weighted single-source stage (BinaryHeap Dijkstra in betweenness.rs: with one symbolic weight the symbolic execution exceeds 20 minutes, with constant weights the solver decides nothing) and therefore weighted betweenness as a whole; graphs with more than 3 nodes; the parallel branch (C07)",
     "assumptions": ["graphs are produced by build_direct (validated by the c02_build_* harnesses)"],
     "jobs": 10,
@@ -119,7 +126,6 @@ PROPS["C05"] = {
 ATTACH["C06"] = {"ac": [("src/graph/mod.rs", "model.rs"), ("src/algorithms/centrality/closeness.rs", "closeness_ac.rs")]}
 PROPS["C06"] = {
     "harnesses": [
-        H("c06_formula_all", "ac", "get_node_centrality for every r <= n <= 6, symbolic integer distances 1..8 and the WF flag", covers=["WF scaling on a partially reachable node", "isolated"], bounds="n <= 6", timeout=900),
     ] + [H(name, "ac", what, tier=tier, covers=covers, bounds="3 nodes; topology enumerated; unwind 8", timeout=1500) for (name, call, tier, covers, what) in _gen.c06_cases()],
     "outside": "the weighted search stage (BinaryHeap; same measurement as C05) and therefore weighted closeness; graphs with more than 3 nodes; the parallel branch (C07)",
     "assumptions": ["graphs are produced by build_direct (validated by the c02_build_* harnesses)"],
@@ -140,12 +146,6 @@ PROPS["C09"] = {
 
 # ---------------------------------------------------------------- C10
 ATTACH["C10"] = {"ac": [("src/graph/mod.rs", "model.rs"), ("src/algorithms/components/mod.rs", "components_ac.rs")]}
-def _c10_cap(name):
-    import re as _re
-    m = _re.search(r'_m(\d+)', name)
-    if m and ("weak" in name or "strong" in name or "bfsparts_d" in name) and bin(int(m.group(1))).count("1") > 4:
-        return 8
-    return 4
 PROPS["C10"] = {
     "harnesses": [
         H(name, "ac", what, tier=tier, covers=covers, bounds="3 nodes; every topology enumerated by the generator (16 undirected, 128 directed), unwind %d" % (9 if _c10_cap(name) == 4 else 10), timeout=1500, cap=_c10_cap(name))
